@@ -580,6 +580,14 @@ func (p *Parser) ParsingIter() iter.Seq[*ParserReply] {
 		const depth0 int = 0
 		for {
 			expr, err = p.ParseExpression(depth0)
+			if err == nil && expr == SexpEnd && p.lexer.inOpenString() {
+				// the input ended at top level inside a "string": the text is unfinished
+				p.sendMe.Err = ErrMoreInputNeeded
+				if !yield(p.sendMe) {
+					return
+				}
+				continue
+			}
 			if err == nil && expr == SexpEnd {
 				// the input ended at top level, possibly right behind a
 				// token that only the end of the input terminates
